@@ -11,7 +11,6 @@ import (
 	"fmt"
 	"math/big"
 	"os"
-	"path/filepath"
 	"reflect"
 	"runtime"
 	"sort"
@@ -564,7 +563,6 @@ func (in *inner) edit(proof any, t Triple) (any, string) {
 // evaluation of one triple
 
 type tripleResult struct {
-	known     string
 	skip      string
 	violation string
 	classes   []string
@@ -701,42 +699,6 @@ func (in *inner) exceptional(proof any, vk any, pub []*big.Int) string {
 	return ""
 }
 
-const sigAllZero = "groth16-complete-arithmetic-all-zero-public"
-
-func allZero(v []*big.Int) bool {
-	for _, x := range v {
-		if x.Sign() != 0 {
-			return false
-		}
-	}
-	return true
-}
-
-// findingStatus returns the status ("open", "fixed", ...) of the entry of known_findings.json
-// with this property and match signature, "" when there is none (the file is only read).
-func findingStatus(property, sig string) string {
-	root := os.Getenv("VERIF_ROOT")
-	if root == "" {
-		root = "/verif"
-	}
-	b, err := os.ReadFile(filepath.Join(root, "known_findings.json"))
-	if err != nil {
-		return ""
-	}
-	var doc struct {
-		Findings []ev.Finding `json:"findings"`
-	}
-	if json.Unmarshal(b, &doc) != nil {
-		return ""
-	}
-	for _, f := range doc.Findings {
-		if f.Property == property && f.Match == sig {
-			return f.Status
-		}
-	}
-	return ""
-}
-
 // nearModulus: scalars r-k for small k never return from the emulated GLV half-GCD hint (known finding F27).
 func nearModulus(x, q *big.Int) bool {
 	d := new(big.Int).Sub(q, x)
@@ -750,21 +712,9 @@ type outerVerdict struct {
 	timedOut bool
 }
 
-// serialBW6: std/algebra/emulated/sw_bw6761 keeps a package-level emulated.Element (thirdRootOne) in
-// which the emulated field caches a per-run evaluation, so two engines (or compilations) that use the
-// BW6-761 pairing at the same time disturb each other. Those runs are serialised here (harness concern;
-// the defect itself belongs to the concurrency property).
-var serialBW6 sync.Mutex
-
-func solveOuter(circ, asg frontend.Circuit, field *big.Int, serial bool) outerVerdict {
+func solveOuter(circ, asg frontend.Circuit, field *big.Int) outerVerdict {
 	ch := make(chan error, 1)
-	if serial {
-		serialBW6.Lock() // before the timer starts: waiting for another run is not a hang
-	}
 	go func() {
-		if serial {
-			defer serialBW6.Unlock()
-		}
 		var err error
 		if msg := ev.Safely(func() { err = test.IsSolved(circ, asg, field) }); msg != "" {
 			err = fmt.Errorf("%s", msg)
@@ -950,8 +900,7 @@ func (in *inner) evalTriple(t Triple, cc *compiledCache) (res tripleResult) {
 	if berr != nil {
 		return tripleResult{skip: "assignment: " + firstLine(berr.Error())}
 	}
-	serial := c.Pair == "bw6-761>bn254"
-	ov := solveOuter(circ, asg, in.p.Outer(), serial)
+	ov := solveOuter(circ, asg, in.p.Outer())
 	if ov.timedOut {
 		return tripleResult{skip: fmt.Sprintf("outer test-engine run did not return within %s", outerTimeout)}
 	}
@@ -972,19 +921,6 @@ func (in *inner) evalTriple(t Triple, cc *compiledCache) (res tripleResult) {
 	case res.native && !outerOK:
 		if exc != "" {
 			res.classes = append(res.classes, "incomplete-arithmetic-exception:"+exc)
-		} else if c.Scheme == "groth16" && c.Complete && allZero(pub) && zk.Elem(proof).FieldByName("Commitments").Len() == 0 {
-			// Σ xᵢ·Kᵢ is the point at infinity and AssertProof adds K₀ (and the commitments) with the
-			// incomplete curve.Add even under WithCompleteArithmetic (std/recursion/groth16/verifier.go
-			// "kSum = v.curve.Add(kSum, &vk.G1.K[0])"): honest proofs of an all-zero public vector are rejected
-			msg := fmt.Sprintf("%s COMPLETENESS: native verifier accepts, outer circuit with WithCompleteArithmetic is unsatisfiable for an all-zero public vector: %s", where, errHint(ov.err))
-			switch findingStatus(ID, sigAllZero) {
-			case "open":
-				res.known = sigAllZero
-			case "":
-				res.classes = append(res.classes, "excluded:candidate-finding:"+sigAllZero)
-			default: // registered as fixed: suppress nothing
-				res.violation = msg
-			}
 		} else {
 			res.violation = fmt.Sprintf("%s COMPLETENESS: native verifier accepts, outer circuit is unsatisfiable: %s", where, errHint(ov.err))
 		}
@@ -1011,10 +947,6 @@ func (in *inner) evalTriple(t Triple, cc *compiledCache) (res tripleResult) {
 		sig := c.Mode
 		if c.Mode == KeyFixed || c.Mode == KeyConst || c.Mode == KeySwitchC || c.Mode == KeySame2 {
 			sig += "|" + strings.Join(keyNames, ",")
-		}
-		if serial {
-			serialBW6.Lock()
-			defer serialBW6.Unlock()
 		}
 		ccs, cerr := cc.get(sig, in.p.Outer(), c.Scheme, circ)
 		if ccs == nil {
@@ -1109,6 +1041,9 @@ func run(c Case, rec *ev.Recorder) ev.Outcome {
 	if c.Compiled {
 		classes = append(classes, "compiled-case")
 	}
+	if c.Scheme == "groth16" && c.Subgroup && nc > 0 {
+		classes = append(classes, "groth16:subgroup-check+commitment")
+	}
 
 	results := make([]tripleResult, len(c.Triples))
 	cc := &compiledCache{m: map[string]constraint.ConstraintSystem{}, e: map[string]string{}}
@@ -1136,7 +1071,6 @@ func run(c Case, rec *ev.Recorder) ev.Outcome {
 	wg.Wait()
 
 	evaluated, nontriv := 0, false
-	known := ""
 	for i, r := range results {
 		if r.violation != "" {
 			return ev.Outcome{Violation: fmt.Sprintf("triple %d: %s", i, r.violation)}
@@ -1149,18 +1083,9 @@ func run(c Case, rec *ev.Recorder) ev.Outcome {
 			}
 			continue
 		}
-		if r.known != "" {
-			known = r.known
-			continue
-		}
 		evaluated++
 		classes = append(classes, r.classes...)
 		nontriv = nontriv || r.nontriv
-	}
-	if known != "" {
-		if kf, ok := ev.OpenFinding(ID, known); ok {
-			return ev.Outcome{Known: kf.ID, Discard: true, DiscardWhy: "known finding " + kf.ID}
-		}
 	}
 	if evaluated == 0 {
 		return ev.Outcome{Discard: true, DiscardWhy: "no triple could be built"}
@@ -1253,8 +1178,8 @@ func genTriple(t *rapid.T, c *Case, nc int, torsion bool) Triple {
 				ops = append(ops, "torsion", "torsion", "torsion")
 			}
 			tr.ElemOp = rapid.SampledFrom(ops).Draw(t, "elemop")
-			if tr.ElemOp == "torsion" && tr.Elem == "Bs" {
-				tr.Elem = "Krs" // torsion points are built for G1 only
+			if tr.ElemOp == "torsion" && tr.Elem == "Bs" && !hasG2Torsion(c.Pair) {
+				tr.Elem = "Krs" // no G2 torsion point for this curve
 			}
 		} else if rapid.IntRange(0, 2).Draw(t, "scalar") == 0 {
 			tg := plonkScalarTargets(nc)
@@ -1312,15 +1237,27 @@ func genCase(cfg genCfg) *rapid.Generator[Case] {
 		if c.Scheme == "groth16" {
 			maxC = 1
 		}
+		// the subgroup option comes first: where torsion points can be built (bls12-377) half of the
+		// Groth16 cases carry it and most of those get an inner circuit WITH a commitment, so that the
+		// Pedersen part of the option (Commitments[0], CommitmentPok) is reached by construction
+		wantCommit := false
+		if c.Scheme == "groth16" && hasSubgroupCheck(c.Pair) {
+			if hasTorsion(c.Pair) {
+				c.Subgroup = rapid.Bool().Draw(t, "subgroup")
+				wantCommit = c.Subgroup && rapid.IntRange(0, 3).Draw(t, "wantcommit") != 0
+			} else {
+				c.Subgroup = rapid.IntRange(0, 2).Draw(t, "subgroup") == 0
+			}
+		}
 		// redraw (bounded) until statement 1 satisfies the circuit and, for Groth16 on an emulated
 		// pairing, no public value is r-k with k small (known finding F27: the run would not return)
-		for try := 0; try < 12; try++ {
+		for try := 0; try < 16; try++ {
 			c.Prog = zk.GenProvable(zk.ProvableCfg{Q: f.Q, MaxOps: 6, MaxCommits: maxC}).Draw(t, "prog")
 			r := prog.Eval(c.Prog, f.Q)
 			if !r.OK || r.Excluded != "" {
 				continue
 			}
-			bad := false
+			bad := wantCommit && zk.NbCommits(c.Prog) == 0
 			if c.Scheme == "groth16" && p.Emulated() {
 				for _, x := range pubValues(c.Prog, f.Q, r.Outs) {
 					bad = bad || nearModulus(x, f.Q)
@@ -1340,7 +1277,6 @@ func genCase(cfg genCfg) *rapid.Generator[Case] {
 		c.Mut = Mutation{Idx: rapid.IntRange(0, 7).Draw(t, "mutidx"), To: rapid.SampledFrom([]string{"Add", "Sub", "Mul", "Extra"}).Draw(t, "mutto")}
 		if c.Scheme == "groth16" {
 			c.Mode = rapid.SampledFrom([]string{KeyWitness, KeyWitness, KeyFixed, KeyFixed, KeyConst, KeySwitchW, KeySwitchC, KeySwitchC}).Draw(t, "mode")
-			c.Subgroup = rapid.IntRange(0, 2).Draw(t, "subgroup") == 0 && hasSubgroupCheck(c.Pair)
 		} else {
 			c.Mode = rapid.SampledFrom([]string{KeyWitness, KeyFixed, KeyFixed, KeyConst, KeySwitchW, KeySwitchW, KeySwitchC, KeySame2}).Draw(t, "mode")
 		}
@@ -1359,6 +1295,29 @@ func genCase(cfg genCfg) *rapid.Generator[Case] {
 		for i := 0; i < n; i++ {
 			c.Triples = append(c.Triples, genTriple(t, &c, nc, torsion))
 		}
+		if c.Scheme == "groth16" && c.Subgroup && torsion {
+			// by construction: every group element of the proof moved by a cofactor-torsion point, on an
+			// otherwise genuine triple - the native verifier rejects each, WithSubgroupCheck must too
+			base := Triple{Proof: "a", Key: "a", Pub: "a"}
+			if isSwitch(c.Mode) {
+				base.Sel = rapid.IntRange(0, len(c.KeyList)-1).Draw(t, "tsel")
+				cb := combosByKey[c.KeyList[base.Sel]][0]
+				base.Proof, base.Key, base.Pub = cb.proof, cb.key, cb.pub
+			}
+			targets := []string{"Ar", "Krs"}
+			if hasG2Torsion(c.Pair) {
+				targets = append(targets, "Bs")
+			}
+			if nc > 0 {
+				targets = append(targets, "CommitmentPok", "Commitments[0]")
+			}
+			for _, el := range targets {
+				tr := base
+				tr.Elem, tr.ElemOp = el, "torsion"
+				tr.Delta = int64(rapid.IntRange(0, 3).Draw(t, "tk"))
+				c.Triples = append(c.Triples, tr)
+			}
+		}
 		if cfg.firstGenuine {
 			// few (expensive) cases: make sure the completeness direction is exercised in each
 			g := Triple{Proof: "a", Key: "a", Pub: "a"}
@@ -1373,24 +1332,22 @@ func genCase(cfg genCfg) *rapid.Generator[Case] {
 	})
 }
 
-const rule = "An inner circuit (rapid-generated lib/zk.GenProvable program, 0-1 commitments for Groth16 - the in-circuit verifier supports one - and 0-2 for PLONK) fixes the shape of the outer circuit (placeholders). Keys: a (Setup), r/r2 (Groth16: re-setup; PLONK: other SRS) and b (circuit B = A with one Add/Sub/Mul renamed or one more multiplication; same shape, same SRS); genuine proofs a, a2, alt (second statement), r, r2, b made with std/recursion GetNativeProverOptions. Each case carries 2-8 drawn triples (proof, key or selector, public vector): genuine; replayed against another statement's public vector or an edited one (inc/dec/zero/delta/copy/swap); one proof element replaced by another valid group element (neg, double, add/set from a sibling element, the same element of another genuine proof, scalar multiple, infinity, +cofactor-torsion point for Groth16 G1 elements on the two-chains) or one claimed scalar altered (PLONK); proof of key X against key Y; key-switching modes with 2-3 candidate keys and every selector incl. out-of-range ones. Configuration drawn per case: pairing (two-chains bls12-377>bw6-761, bls24-315>bw6-633; emulated bn254>bn254, bls12-381>bn254, bw6-761>bn254), key mode (witness / fixed / const / switchw / switchc / same2 = PLONK AssertSameProofs with a genuine companion), WithCompleteArithmetic, WithSubgroupCheck (where implemented), and for a subset Compile+Solve of the outer circuit. Oracle: native Verify(triple) with GetNativeVerifierOptions == nil  <=>  test.IsSolved(outer circuit) == nil (and == compiled Solve), both directions; PLONK modes with a shared base key compare against the native key composed of the base part of the first key and the circuit part of the selected key; without WithCompleteArithmetic the completeness direction is asserted only outside the documented exceptional inputs (zero scalars, points at infinity, MSM points coinciding up to sign); a cofactor-torsion point must be rejected only under WithSubgroupCheck. Non-trivial: the case contains a triple whose native verdict is reject, or a key-switching triple selecting a non-first key. Distinct: SHA-256 of the case JSON."
+const rule = "An inner circuit (rapid-generated lib/zk.GenProvable program, 0-1 commitments for Groth16 - the in-circuit verifier supports one - and 0-2 for PLONK) fixes the shape of the outer circuit (placeholders). Keys: a (Setup), r/r2 (Groth16: re-setup; PLONK: other SRS) and b (circuit B = A with one Add/Sub/Mul renamed or one more multiplication; same shape, same SRS); genuine proofs a, a2, alt (second statement), r, r2, b made with std/recursion GetNativeProverOptions. Each case carries 2-8 drawn triples (proof, key or selector, public vector): genuine; replayed against another statement's public vector or an edited one (inc/dec/zero/delta/copy/swap); one proof element replaced by another valid group element (neg, double, add/set from a sibling element, the same element of another genuine proof, scalar multiple, infinity, +cofactor-torsion point for Groth16 G1 elements on the two-chains and Bs on bls12-377; Groth16 cases with WithSubgroupCheck on bls12-377 - half of them, mostly with a commitment - additionally carry one torsion triple per proof element Ar, Krs, Bs, CommitmentPok, Commitments[0]) or one claimed scalar altered (PLONK); proof of key X against key Y; key-switching modes with 2-3 candidate keys and every selector incl. out-of-range ones. Configuration drawn per case: pairing (two-chains bls12-377>bw6-761, bls24-315>bw6-633; emulated bn254>bn254, bls12-381>bn254, bw6-761>bn254), key mode (witness / fixed / const / switchw / switchc / same2 = PLONK AssertSameProofs with a genuine companion), WithCompleteArithmetic, WithSubgroupCheck (where implemented), and for a subset Compile+Solve of the outer circuit. Oracle: native Verify(triple) with GetNativeVerifierOptions == nil  <=>  test.IsSolved(outer circuit) == nil (and == compiled Solve), both directions; PLONK modes with a shared base key compare against the native key composed of the base part of the first key and the circuit part of the selected key; without WithCompleteArithmetic the completeness direction is asserted only outside the documented exceptional inputs (zero scalars, points at infinity, MSM points coinciding up to sign); a cofactor-torsion point must be rejected only under WithSubgroupCheck. Non-trivial: the case contains a triple whose native verdict is reject, or a key-switching triple selecting a non-first key. Distinct: SHA-256 of the case JSON."
 
 func setup(rec *ev.Recorder) {
 	rec.SetRule(rule)
 	rec.Assume("native verdicts are computed, never assumed: a perturbed triple that the native verifier still accepts is a completeness case")
 	rec.Assume("without WithCompleteArithmetic the in-circuit verifiers are only required to accept honest triples whose MSM scalars are non-zero and whose MSM points are distinct up to sign and not at infinity (doc comments of std/algebra MultiScalarMul / ScalarMul and of recursion/plonk WithCompleteArithmetic)")
 	rec.Assume("without WithSubgroupCheck a G1 proof element moved by a cofactor-torsion point may be accepted in-circuit (the pairing cannot see it); the native verifier always checks subgroup membership")
-	rec.Assume("outer runs on bw6-761>bn254 are serialised: concurrent engines using std/algebra/emulated/sw_bw6761 disturb each other through a package-level emulated.Element (reported separately, not asserted here)")
-	rec.Assume("Groth16 with WithCompleteArithmetic, no commitment and an all-zero public vector is excluded (class excluded:candidate-finding:...) until registered in known_findings.json: AssertProof adds K[0] with the incomplete curve.Add to an MSM result at infinity")
 	rec.Assume("Groth16 public inputs r-k (k < 2^20) on the emulated GLV curves are not generated: the half-GCD hint does not terminate (known finding F27)")
 }
 
 func TestTwoChains(t *testing.T) {
 	rec := ev.Get(ID)
 	setup(rec)
-	pairsQ := []string{"bls12-377>bw6-761", "bls12-377>bw6-761", "bls24-315>bw6-633"}
+	pairsQ := []string{"bls12-377>bw6-761", "bls12-377>bw6-761", "bls12-377>bw6-761", "bls24-315>bw6-633"}
 	g := genCase(genCfg{schemes: []string{"groth16", "plonk"}, pairs: pairsQ, minT: 4, maxT: 8, compiled: 12})
-	rec.Check(t, "rec", ev.N(48, 1600), func(rt *rapid.T) {
+	rec.Check(t, "rec", ev.N(56, 1600), func(rt *rapid.T) {
 		c := g.Draw(rt, "case")
 		rec.Report(rt, "rec", c, run(c, rec))
 	})
@@ -1402,8 +1359,8 @@ func TestEmulated(t *testing.T) {
 	}
 	rec := ev.Get(ID)
 	setup(rec)
-	// one engine run costs seconds (minutes on a loaded machine); bw6-761>bn254 is the most expensive
-	// and its runs are serialised (see serialBW6), so it is drawn less often
+	// one engine run costs seconds (minutes on a loaded machine); bw6-761>bn254 is the most expensive,
+	// so it is drawn less often
 	ps := []string{"bn254>bn254", "bn254>bn254", "bn254>bn254", "bls12-381>bn254", "bls12-381>bn254", "bls12-381>bn254", "bw6-761>bn254"}
 	g := genCase(genCfg{schemes: []string{"groth16", "plonk"}, pairs: ps, minT: 2, maxT: 3, firstGenuine: true})
 	rec.Check(t, "rec", ev.N(3, 64), func(rt *rapid.T) {
